@@ -124,6 +124,13 @@ theorem c15_is_valid_holds (N : Nat) (as : List Act) (self base alloc : Nat)
     AwsVerif.Gen.Ring.isValid (rbOf (run (Sys.init N) as).ring self base alloc) = true :=
   isValid_of_shape (reach_inv N as).1 h1 h2 h3
 
+/-- [A] `aws_ring_buffer_is_empty` (generated from `ring_buffer.inl`: `head == tail`) is true in a reachable state
+exactly when no buffer is outstanding — in every interleaving, also between the acquirer's two steps. -/
+theorem c15_is_empty_iff (N : Nat) (as : List Act) (self base alloc : Nat) :
+    AwsVerif.Gen.Ring.isEmpty (rbOf (run (Sys.init N) as).ring self base alloc) = true ↔
+      (run (Sys.init N) as).ring.out = [] :=
+  isEmpty_iff_of_shape (reach_inv N as).1 self base alloc
+
 /-! ### Non-vacuity: the hypotheses are met by non-trivial reachable states -/
 
 /-- a reachable state with `head` one past the end of the storage (full-capacity grant on an empty ring), and
